@@ -168,11 +168,17 @@ def r4(ctx):
     if not ok:
         return
     tx = fw[0][2][2][1]
-    src = [c for c in ch if mir.mk_proj(c[2], ("0",)) == tx]
+    # one channel, created here: `mpsc_unbounded()` (tx = .0, rx = .1) or `Channel::new()` (its wrapper: fields tx / rx)
+    cn = ctx.ibody(ctx.find(path="barter_integration::channel::Channel::<T>::new", optional=True) or
+                   [d for d in ctx.facts.bodies if mir._strip_generics(d) == "barter_integration::channel::Channel::new"][0])
+    wrapper_ok = render(cn.return_term()) == "Channel::Channel{tx: channel::mpsc_unbounded().0, rx: channel::mpsc_unbounded().1}" and \
+        len([1 for _, _, tm_ in cn.real_calls() if mir.short(tm_[1]) == "channel::mpsc_unbounded"]) == 1
+    ch2 = [(bi, t, tm) for bi, t, tm in calls if mir.short(tm[1]) == "Channel::new"] if wrapper_ok else []
+    src = [(c, ("0",), ("1",)) for c in ch if mir.mk_proj(c[2], ("0",)) == tx] + [(c, ("tx",), ("rx",)) for c in ch2 if mir.mk_proj(c[2], ("tx",)) == tx]
     ctx.check("SystemBuild::init_internal", len(src) == 1, "into the transmitter half of the engine feed channel", got=render(tx), key="feed-tx")
     if len(src) != 1:
         return
-    rx = mir.mk_proj(src[0][2], ("1",))
+    rx = mir.mk_proj(src[0][0][2], src[0][2])
     # every engine runner closure captures that receiver
     runners = 0
     good = 0
@@ -239,14 +245,14 @@ def r6(ctx):
     for path, label in (("barter::engine::run::async_run::{closure#0}", "async_run"), ("barter::engine::run::sync_run", "sync_run")):
         b = ctx.ibody(ctx.find(path=path))
         calls = b.real_calls()
-        P = [(bi, t, tm) for bi, t, tm in calls if mir.short(tm[1]) == "engine::process_with_audit"]
+        P = common.processing_sites(calls)
         ok = len(P) == 1
         ctx.check(label, ok, "one processing site", got=len(P), key="shape")
         if not ok:
             continue
-        pb, pt, ptm = P[0]
-        ev = render(ptm[2][1])
-        ctx.check(label, render(ptm[2][0]) in ("engine", "^engine") and ev.endswith(".as:Some.0") and ("next(feed)" in ev or "next(^feed)" in ev),
+        pb, pt, ptm, p_engine, p_event = P[0]
+        ev = render(p_event)
+        ctx.check(label, render(p_engine) in ("engine", "^engine") and ev.endswith(".as:Some.0") and ("next(feed)" in ev or "next(^feed)" in ev),
                   "the event processed is the item just taken from the feed", got=render(ptm)[:160], key="item")
         heads = {x for x in b.reachable if b.blocks[x]["term"]["t"] == "false_unwind"}
         starts = []
